@@ -10,12 +10,10 @@ func init() {
 func zzH_C20_conv() {
 	// []byte -> string, from a sub-slice with spare capacity
 	l := zzInt("len", 0, 40)
-	c := zzInt("cap", 0, 64)
-	zzAssume(l <= c)
+	c := zzInt("cap", l, 64)
 	base := zzBytesCap("b", l, c)
-	lo := zzInt("lo", 0, 40)
-	hi := zzInt("hi", 0, 40)
-	zzAssume(zzAnd(lo <= hi, hi <= l))
+	lo := zzInt("lo", 0, l)
+	hi := zzInt("hi", lo, l)
 	sub := base[lo:hi]
 	s := BinaryToString(sub)
 	zzAssert(len(s) == len(sub), "BinaryToString changed the length")
@@ -31,9 +29,8 @@ func zzH_C20_conv() {
 	// string -> []byte, from a substring of a larger string
 	n := zzInt("slen", 0, 40)
 	str := zzString("s", n)
-	lo2 := zzInt("lo2", 0, 40)
-	hi2 := zzInt("hi2", 0, 40)
-	zzAssume(zzAnd(lo2 <= hi2, hi2 <= n))
+	lo2 := zzInt("lo2", 0, n)
+	hi2 := zzInt("hi2", lo2, n)
 	ss := str[lo2:hi2]
 	bs := StringToBinary(ss)
 	zzAssert(len(bs) == len(ss), "StringToBinary changed the length")
